@@ -9,7 +9,10 @@ import (
 	"fmt"
 	"math/rand"
 	"os"
+	"path/filepath"
 	"sort"
+	"strconv"
+	"strings"
 	"time"
 
 	"github.com/evolbioinfo/goalign/align"
@@ -130,6 +133,110 @@ func phaseCall(seqs, refs [][]int, o phOpts, cpus int) phEvent {
 	}
 }
 
+// ---- the command-line front of phasing ----------------------------------------------------------------
+func readsFasta(seqs [][]int, prefix string) []byte {
+	var b strings.Builder
+	for i, s := range seqs {
+		fmt.Fprintf(&b, ">%s%d\n%s\n", prefix, i+1, string(i2b(s)))
+	}
+	return []byte(b.String())
+}
+
+func fastaMap(text string) map[string]string {
+	m := map[string]string{}
+	name := ""
+	for _, l := range strings.Split(text, "\n") {
+		if strings.HasPrefix(l, ">") {
+			name = l[1:]
+			m[name] = ""
+		} else if name != "" {
+			m[name] += l
+		}
+	}
+	return m
+}
+
+// phasentCli runs `goalign phasent --unaligned` on the reads (nucleotide mode: the three sequences of a result are
+// written to -o, --nt-output and --aa-output, the start position to the log) and rebuilds a phase event; the reference
+// the command used is returned too (given, or detected and announced in the log).
+func phasentCli(dir string, seqs, refs [][]int, o phOpts, cpus int) (ev phEvent, orf []int, ok bool) {
+	ev = phEvent{T: "phase", Seqs: seqs, Refs: refs, O: o, Cpus: cpus, Results: []phResult{}, After: seqs, Orf: []int{}, R1: []phResult{}, R2: []phResult{}}
+	if ev.Refs == nil {
+		ev.Refs = [][]int{}
+	}
+	code, cok := map[int]string{align.GENETIC_CODE_STANDARD: "standard", align.GENETIC_CODE_VETEBRATE_MITO: "mitov", align.GENETIC_CODE_INVETEBRATE_MITO: "mitoi"}[o.Code]
+	if o.Translate || !cok {
+		return ev, nil, false
+	}
+	in, out, nt, aa, lg, rf := filepath.Join(dir, "ph_in.fa"), filepath.Join(dir, "ph_out.fa"), filepath.Join(dir, "ph_nt.fa"), filepath.Join(dir, "ph_aa.fa"), filepath.Join(dir, "ph_log.txt"), filepath.Join(dir, "ph_ref.fa")
+	for _, f := range []string{out, nt, aa, lg} {
+		os.Remove(f)
+	}
+	if os.WriteFile(in, readsFasta(seqs, "q"), 0o644) != nil {
+		return ev, nil, false
+	}
+	argv := []string{"phasent", "--unaligned", "-i", in, "-o", out, "--nt-output", nt, "--aa-output", aa, "-l", lg, "-t", fmt.Sprint(cpus), "--genetic-code", code}
+	if o.Reverse {
+		argv = append(argv, "--reverse")
+	}
+	if o.Cutend {
+		argv = append(argv, "--cut-end")
+	}
+	if len(refs) > 0 {
+		var b strings.Builder
+		for i, r := range refs {
+			fmt.Fprintf(&b, ">ref%d\n%s\n", i+1, string(i2b(r)))
+		}
+		if os.WriteFile(rf, []byte(b.String()), 0o644) != nil {
+			return ev, nil, false
+		}
+		argv = append(argv, "--ref-orf", rf)
+	}
+	_, errs, rc := runGoalign(nil, argv...)
+	ev.Msg = "goalign " + strings.Join(argv, " ")
+	if rc != 0 {
+		ev.Kind, ev.Msg = cliKind(errs), ev.Msg+": "+errs
+		if len(ev.Msg) > 500 {
+			ev.Msg = ev.Msg[:500]
+		}
+		return ev, nil, true
+	}
+	rd := func(p string) string { b, _ := os.ReadFile(p); return string(b) }
+	mo, mn, ma := fastaMap(rd(out)), fastaMap(rd(nt)), fastaMap(rd(aa))
+	lines := strings.Split(rd(lg), "\n")
+	seen := map[int]bool{}
+	for k, l := range lines {
+		if strings.HasPrefix(l, "Detected/Given ORF") && k+1 < len(lines) {
+			if c := strings.Index(lines[k+1], ":"); c >= 0 && len(refs) == 0 {
+				orf = s2i(lines[k+1][c+1:])
+			}
+		}
+		f := strings.Split(l, "\t")
+		var qi int
+		if len(f) != 6 || f[0] == "SeqName" {
+			continue
+		}
+		if n, _ := fmt.Sscanf(f[0], "q%d", &qi); n != 1 {
+			continue
+		}
+		r := phResult{I: qi, Nt: []int{}, Codon: []int{}, Aa: []int{}}
+		if f[2] == "Removed" {
+			r.Removed = true
+		} else {
+			pos, err := strconv.Atoi(f[2])
+			if err != nil {
+				return ev, nil, false
+			}
+			r.Pos, r.Nt, r.Codon, r.Aa = pos, s2i(mo[f[0]]), s2i(mn[f[0]]), s2i(ma[f[0]])
+		}
+		seen[qi] = true
+		ev.Results = append(ev.Results, r)
+	}
+	sort.SliceStable(ev.Results, func(a, b int) bool { return ev.Results[a].I < ev.Results[b].I })
+	ev.Closed, ev.Kind = true, "ok"
+	return ev, orf, true
+}
+
 var stopCodons = map[string]bool{"TAA": true, "TGA": true, "TAG": true}
 
 func randNt(rng *rand.Rand, n int) []int {
@@ -215,6 +322,18 @@ func phaseFamily(env *Env) error {
 		ev := phaseCall(seqs, refs, o, cpus)
 		ev.ID = id
 		env.Emit(ev)
+		if cliSampled(i) && !o.Translate {
+			// the same reads through `goalign phasent`; without a given reference, the one it announces is judged as an
+			// answer to "the longest ORF of the reads"
+			if ce, corf, ok := phasentCli(filepath.Dir(env.Out), seqs, refs, o, cpus); ok {
+				ce.ID = id + ":cli"
+				env.Emit(ce)
+				if ce.Kind == "ok" && len(refs) == 0 && corf != nil {
+					env.Emit(phEvent{T: "orf", ID: id + ":cli-ref", Seqs: seqs, Refs: [][]int{}, Reverse: o.Reverse, Results: []phResult{}, After: seqs, Orf: corf,
+						R1: []phResult{}, R2: []phResult{}, Kind: "ok", Msg: ce.Msg})
+				}
+			}
+		}
 		if ev.Kind == "ok" {
 			for _, cp := range []int{1, 4} {
 				if cp == cpus {
@@ -273,6 +392,28 @@ func phaseFamily(env *Env) error {
 			oe.Kind, oe.Orf = "ok", b2i(orfseq.SequenceChar())
 		}()
 		env.Emit(oe)
+		if cliSampled(i) {
+			// `goalign orf` on the same reads
+			in := filepath.Join(filepath.Dir(env.Out), "orf_in.fa")
+			if os.WriteFile(in, readsFasta(oe.Seqs, "q"), 0o644) == nil {
+				argv := []string{"orf", "-i", in}
+				if oe.Reverse {
+					argv = append(argv, "--reverse")
+				}
+				out, errs, rc := runGoalign(nil, argv...)
+				ce := oe
+				ce.ID, ce.After, ce.Orf, ce.Msg = id+":cli", oe.Seqs, []int{}, "goalign "+strings.Join(argv, " ")
+				if rc != 0 {
+					ce.Kind, ce.Msg = cliKind(errs), ce.Msg+": "+strings.SplitN(errs, "\n", 2)[0]
+				} else {
+					ce.Kind = "ok"
+					for _, sq := range fastaMap(out) {
+						ce.Orf = s2i(sq)
+					}
+				}
+				env.Emit(ce)
+			}
+		}
 	}
 	return nil
 }
